@@ -56,3 +56,14 @@ pub fn variant<E: std::fmt::Debug>(e: &E) -> String {
 pub fn outcome_err(phase: &str, v: &str) -> Value {
     json!(format!("err:{phase}:{v}"))
 }
+
+/// run `f` on its own thread; None when it has not returned after `secs` seconds (a hang in code under test is
+/// data; the thread is left behind and dies with the process)
+pub fn with_timeout<T: Send + 'static>(secs: u64, f: impl FnOnce() -> T + Send + 'static) -> Option<T> {
+    let (tx, rx) = std::sync::mpsc::channel();
+    std::thread::spawn(move || {
+        vcore::quiet_panics();
+        let _ = tx.send(f());
+    });
+    rx.recv_timeout(std::time::Duration::from_secs(secs)).ok()
+}
